@@ -29,9 +29,9 @@ EV_CLIST_BOOL, EV_LOCK, EV_CLIST_IN, EV_CLIST_REMOVE, EV_CLIST_EXTEND = 1, 2, 3,
 EV_TASKS_UPDATE, EV_TASKS_IN, EV_TASKS_DEL, EV_TASKS_GET, EV_TASKS_POP = 7, 8, 9, 10, 11
 EV_SPAWN, EV_PROC_SET, EV_PROC_GET, EV_PROC_ITEM, EV_PROC_DEL, EV_PID = 12, 13, 14, 15, 16, 17
 EV_POLL, EV_WAIT, EV_KILL = 18, 19, 20
-EV_WQ_PUT, EV_WQ_GET, EV_WQ_EMPTY, EV_EXIT = 23, 24, 25, 26
+EV_WQ_PUT, EV_WQ_GET, EV_WQ_EMPTY, EV_EXIT, EV_CHECK = 23, 24, 25, 26, 27
 EV_OTHER = 99
-NON_MARKING = {EV_WQ_GET, EV_PROC_SET}
+NON_MARKING = {EV_WQ_GET, EV_WQ_EMPTY, EV_PROC_SET}    # a round of pulls ends when _check_running is entered (EV_CHECK)
 LOCK_CHECK, LOCK_CANCEL, LOCK_TO = 1, 2, 3
 
 FAULTS = ['none', 'nolauncher', 'script', 'spawn', 'afterspawn']
@@ -317,6 +317,7 @@ class LineScheduler:
 
     def __init__(self, codes, world):
         self.codes = set(codes)
+        self.check_code = None        # Popen._check_running: entering it is a recorded action of the watcher
         self.w = world
         self.cv = threading.Condition()
         self.turn = None
@@ -328,6 +329,8 @@ class LineScheduler:
     # --- worker side
     def _global(self, frame, event, arg):
         if frame.f_code in self.codes:
+            if frame.f_code is self.check_code and event == 'call':
+                self.w.rec(EV_CHECK, 0, 0)
             return self._local
         return None
 
@@ -566,11 +569,16 @@ def _canon_em(em):
     return em
 
 
-def run_case(rp, case, max_lines=400, max_steps=600):
+def run_case(rp, case, max_lines=400, max_steps=None):
     """Replay case['sched'] on the real methods, then complete to quiescence."""
+    ntasks = sum(len(b) for b in case['batches'])
+    if max_steps is None:
+        max_steps = 600 + 16 * ntasks
+    max_lines += 12 * ntasks        # loops over the batch that touch nothing shared
     world = World()
     ex, tasks, patches, codes, popen_mod = build(rp, world, case)
     sch = LineScheduler(codes, world)
+    sch.check_code = popen_mod.Popen._check_running.__code__
     world.sch = sch
     exits = {int(k): v for k, v in (case.get('exit_codes') or {}).items()}
     cancels = [list(m) for m in case.get('cancels', [])]
@@ -670,13 +678,15 @@ def run_case(rp, case, max_lines=400, max_steps=600):
                 for u in sorted(world.procs):
                     if world.procs[u].state == 'running':
                         do_exit(u, exits.get(u, 0))
-                prev_empty_drain = False
+                # the watcher is idle once a whole round pulled nothing and had nothing to watch
+                prev_idle_pull = False
                 while len(steps) < max_steps:
                     st = grant('W')
-                    if prev_empty_drain and st[1] == [] and st[2] == [['U', []]]:
+                    if prev_idle_pull and st[1] == [] and st[2] == [['U', []]]:
                         quiescent = True
                         break
-                    prev_empty_drain = (st[1] == [[EV_WQ_EMPTY, 0, 0]] and not st[2])
+                    prev_idle_pull = (bool(st[1]) and st[1][-1] == [EV_CHECK, 0, 0] and not st[2]
+                                      and not any(e[0] == EV_WQ_GET for e in st[1]))
         wsnap = [[u, 'stubborn' if (world.procs[u].state == 'running' and world.procs[u].stubborn) else world.procs[u].state,
                   world.procs[u]._rc()] for u in sorted(world.procs)]
     finally:
@@ -816,6 +826,37 @@ def gen_sched(rng, sc, length=None):
 
 
 
+def exit_before_poll_cases(rng):
+    """the process exits (code 0 and non-zero) BEFORE cancel_task polls it -- right before the poll, or right after
+    the spawn -- not yet collected by the watcher; canceler = control thread, timeout watcher, late check of the intake"""
+    for code in (0, 3):
+        for who in ('C', 'T', 'I'):
+            for early in (False, True):
+                sc = {'batches': [[{'uid': 1, 'fault': 'none', 'timeout': who == 'T', 'stubborn': False},
+                                   {'uid': 2, 'fault': 'none', 'timeout': False, 'stubborn': False}]],
+                      'cancels': [[1]] if who != 'T' else [], 'exit_codes': {'1': code, '2': 0}}
+                x = ['X', 1, code]
+                if who == 'I':          # request registered before the late check: cancel_task runs in the intake thread
+                    pre = ['I', 'I', 'I', 'I'] + ([x] if early else []) + ['C', 'C', 'I', 'I', 'I', 'I'] + ([] if early else [x])
+                    post = ['I'] * 4
+                else:
+                    n_i = 9 if who == 'T' else 8
+                    pre = ['I'] * 4 + ([x] if early else []) + ['I'] * (n_i - 4)
+                    pre += [who] * (2 if who == 'T' else 3) + ([] if early else [x])
+                    post = [who] * 3
+                tail = [rng.choice(THREADS) for _ in range(rng.randint(0, 10))]
+                yield dict(sc, sched=pre + post + tail)
+
+
+def big_case(n, rng=None):
+    """n light tasks (no faults, no cancels) in one batch, canonical fair schedule: the intake launches them all
+    before the watcher's first round of pulls, so that the watch queue holds n entries at one drain
+    (n >= MAX_QUEUE_BULKSIZE = 100 exercises the bulk limit of Popen._watch)"""
+    codes = {str(u): (0 if (rng is None or rng.random() < 0.7) else rng.choice([1, 3])) for u in range(1, n + 1)}
+    return {'batches': [[{'uid': u, 'fault': 'none', 'timeout': False, 'stubborn': False} for u in range(1, n + 1)]],
+            'cancels': [], 'exit_codes': codes, 'sched': []}
+
+
 def coq_row_args(case, obs):
     """the arguments `sc sched obs q fin` of Exec.Oracle.c07_row / c08_exec_row"""
     return '%s %s %s %s %s' % (lit_scenario(case), lit_sched(obs['sched']), lit_obs(obs['steps']),
@@ -823,8 +864,10 @@ def coq_row_args(case, obs):
 
 
 C07_CLAUSES = ['announced_once', 'handed_on_once', 'unscheduled_once', 'not_collected_and_canceled',
-               'outcome_attached', 'announced_before_handed_on', 'exit_code_truthful', 'named_examined_after_launch']
-C08_EXEC_CLAUSES = ['named_end', 'canceled_means_stopped', 'later_met', 'bystanders_untouched', 'named_examined_after_launch']
+               'outcome_attached', 'announced_before_handed_on', 'exit_code_truthful', 'named_examined_after_launch',
+               'canceled_only_if_running_when_polled']
+C08_EXEC_CLAUSES = ['named_end', 'canceled_means_stopped', 'later_met', 'bystanders_untouched', 'named_examined_after_launch',
+                    'canceled_only_if_running_when_polled']
 COQ_HEADER = 'From RP Require Import Exec.Model Exec.Oracle.'
 
 
@@ -844,3 +887,5 @@ def gen_cancel_cases(rng, n):
             named = named[:-1]
         sc['cancels'] = [named]
         yield dict(sc, sched=gen_sched(rng, sc))
+    for c in exit_before_poll_cases(rng):
+        yield c
